@@ -182,4 +182,4 @@ def run(ctx):
             fixed = None
         case["fixed"] = fixed
         case["calls"] = rng.choice([2, 2, 3])
-        check_case(ctx, case)
+        ctx.guard(check_case, case)
